@@ -57,21 +57,23 @@ type deferred struct {
 }
 
 type Frame struct {
-	fn       *ssa.Function
-	regs     map[ssa.Value]Value
-	params   map[*ssa.Parameter]Value
-	freeVars map[*ssa.FreeVar]Value
-	defers   []deferred
-	top      bool
-	contract *FuncContract
-	entry    *State
-	args     []Value
-	callOrd  map[string]int
-	depth    int
-	parent   *Frame
-	allocSeq []*ssa.Alloc
-	curLoop  *loopInfo
-	results  []Value // at ensures time
+	fn        *ssa.Function
+	regs      map[ssa.Value]Value
+	params    map[*ssa.Parameter]Value
+	freeVars  map[*ssa.FreeVar]Value
+	defers    []deferred
+	top       bool
+	contract  *FuncContract
+	entry     *State
+	args      []Value
+	callOrd   map[string]int
+	depth     int
+	parent    *Frame
+	allocSeq  []*ssa.Alloc
+	curLoop   *loopInfo
+	results   []Value // at ensures time
+	loopHeads map[*loopInfo]*State
+	loopPre   map[*loopInfo]*State
 }
 
 func (ex *Exec) warn(format string, a ...interface{}) {
@@ -84,6 +86,18 @@ func (ex *Exec) warn(format string, a ...interface{}) {
 
 func (ex *Exec) assume(pc *Term, fact *Term) {
 	if ex.inSpec > 0 {
+		return
+	}
+	if fact.Op == "and" {
+		for _, c := range fact.Args {
+			ex.assume(pc, c)
+		}
+		return
+	}
+	if fact.Op == "=>" && fact.Args[1].Op == "and" {
+		for _, c := range fact.Args[1].Args {
+			ex.assume(And(pc, fact.Args[0]), c)
+		}
 		return
 	}
 	t := Implies(pc, fact)
@@ -143,7 +157,7 @@ func (ex *Exec) assumeTyped(st *State, v Value) {
 		case "scap":
 			ex.assume(st.pc, Le(t, BigLit(maxInt64)))
 		case "str":
-			ex.assume(st.pc, Ge(UF("str.len", IntSort, t), IntLit(0)))
+			ex.assume(st.pc, Ge(UF("str_len", IntSort, t), IntLit(0)))
 		}
 	}
 }
@@ -526,7 +540,23 @@ func (ex *Exec) loopHead(fr *Frame, st *State, li *loopInfo, fname string) {
 	}
 	// havoc what the loop may modify
 	ws := ex.eng.wa.ofBlocks(li.blocks, fr.fn)
-	ex.havoc(st, ws, fmt.Sprintf("loop%d", li.ordinal), fr)
+	if spec != nil && spec.HasMod {
+		// declared heap frame of the loop: locals still come from the static write set
+		pre := st.clone()
+		env := ex.frameEnv(fr, pre, fr.entry)
+		lw := newWriteSet()
+		lw.locals = ws.locals
+		lw.alloc = true
+		ex.havoc(st, lw, fmt.Sprintf("loop%d", li.ordinal), fr)
+		ex.havocTargets(st, spec.Modifies, env, fr, fmt.Sprintf("loop %d of %s", li.ordinal, fname))
+		if fr.loopHeads == nil {
+			fr.loopHeads = map[*loopInfo]*State{}
+			fr.loopPre = map[*loopInfo]*State{}
+		}
+		fr.loopPre[li] = pre
+	} else {
+		ex.havoc(st, ws, fmt.Sprintf("loop%d", li.ordinal), fr)
+	}
 	if spec != nil {
 		for _, inv := range spec.Invariants {
 			g, err := ex.compileBool(fr, st, fr.entry, inv.E, false)
@@ -535,6 +565,9 @@ func (ex *Exec) loopHead(fr *Frame, st *State, li *loopInfo, fname string) {
 			}
 			ex.assume(st.pc, g)
 		}
+	}
+	if spec != nil && spec.HasMod {
+		fr.loopHeads[li] = st.clone()
 	}
 	fr.curLoop = saved
 }
@@ -554,6 +587,13 @@ func (ex *Exec) loopBack(fr *Frame, st *State, li *loopInfo, fname string) {
 			continue
 		}
 		ex.prove(fname, st, "inv-pres", label, g, inv.Text, li.head.Instrs[0].Pos())
+	}
+	if spec.HasMod && fr.loopHeads[li] != nil {
+		// the iteration changed nothing outside the declared loop frame (targets evaluated before the loop)
+		head := fr.loopHeads[li]
+		pre := fr.loopPre[li]
+		chk := &State{pc: st.pc, locals: pre.locals, heap: head.heap, wm: head.wm}
+		ex.frameObligationsLoop(fr, st, chk, pre, spec.Modifies, fname, fmt.Sprintf("L%d:", li.ordinal))
 	}
 	fr.curLoop = saved
 }
@@ -586,7 +626,7 @@ func (ex *Exec) havoc(st *State, ws *WriteSet, why string, fr *Frame) {
 	}
 	if ws.all {
 		ex.warn("havoc of the whole heap at %s: %s", why, ws.why)
-		st.heap = newHeap()
+		st.heap = newHeap(st.wm)
 	} else {
 		for k := range ws.keys {
 			srt, ok := keySortReg[k]
@@ -594,6 +634,7 @@ func (ex *Exec) havoc(st *State, ws *WriteSet, why string, fr *Frame) {
 				panic("havoc: unregistered heap key " + k)
 			}
 			st.heap.m[k] = Fresh(k+"."+why, srt)
+			regHeapConst(st.heap.m[k], k, st.wm)
 		}
 	}
 	// locals must be re-typed
@@ -743,7 +784,7 @@ func (ex *Exec) instr(fr *Frame, st *State, in ssa.Instruction, fname string) {
 		switch xt := i.X.Type().Underlying().(type) {
 		case *types.Slice:
 			ex.boundsCheck(fr, st, idx, x.C[2], fname, i.Pos(), "index")
-			fr.regs[i] = Value{T: i.Type(), Loc: &Loc{Kind: LElem, Ref: x.C[0], Idx: Add(x.C[1], idx), Keys: elemKeys(xt.Elem()), T: xt.Elem()}}
+			fr.regs[i] = Value{T: i.Type(), Loc: &Loc{Kind: LElem, Ref: x.C[0], Idx: Idx(x.C[1], idx), Keys: elemKeys(xt.Elem()), T: xt.Elem()}}
 		case *types.Pointer:
 			arr := xt.Elem().Underlying().(*types.Array)
 			var ref *Term
@@ -762,8 +803,8 @@ func (ex *Exec) instr(fr *Frame, st *State, in ssa.Instruction, fname string) {
 		idx := ex.val(fr, st, i.Index).one()
 		switch xt := i.X.Type().Underlying().(type) {
 		case *types.Basic: // string
-			ex.boundsCheck(fr, st, idx, UF("str.len", IntSort, x.one()), fname, i.Pos(), "index")
-			fr.regs[i] = Value{T: i.Type(), C: []*Term{UF("str.at", IntSort, x.one(), idx)}}
+			ex.boundsCheck(fr, st, idx, UF("str_len", IntSort, x.one()), fname, i.Pos(), "index")
+			fr.regs[i] = Value{T: i.Type(), C: []*Term{UF("str_at", IntSort, x.one(), idx)}}
 			ex.assumeTyped(st, fr.regs[i])
 		case *types.Array:
 			ex.boundsCheck(fr, st, idx, IntLit(xt.Len()), fname, i.Pos(), "index")
@@ -1019,8 +1060,8 @@ func (ex *Exec) lookup(fr *Frame, st *State, i *ssa.Lookup, fname string) {
 			fr.regs[i] = v
 		}
 	case *types.Basic:
-		ex.boundsCheck(fr, st, idx.one(), UF("str.len", IntSort, x.one()), fname, i.Pos(), "index")
-		fr.regs[i] = Value{T: i.Type(), C: []*Term{UF("str.at", IntSort, x.one(), idx.one())}}
+		ex.boundsCheck(fr, st, idx.one(), UF("str_len", IntSort, x.one()), fname, i.Pos(), "index")
+		fr.regs[i] = Value{T: i.Type(), C: []*Term{UF("str_at", IntSort, x.one(), idx.one())}}
 		ex.assumeTyped(st, fr.regs[i])
 	default:
 		fr.regs[i] = freshValue("lookup", i.Type())
@@ -1085,7 +1126,7 @@ func (ex *Exec) sliceOp(fr *Frame, st *State, i *ssa.Slice, fname string) {
 		ex.assume(st.pc, g)
 		fr.regs[i] = Value{T: i.Type(), C: []*Term{x.C[0], Add(x.C[1], lo), Sub(hi, lo), Sub(mx, lo)}}
 	case *types.Basic:
-		ln := UF("str.len", IntSort, x.one())
+		ln := UF("str_len", IntSort, x.one())
 		lo := get(i.Low, zero)
 		hi := get(i.High, ln)
 		g := And(Le(zero, lo), Le(lo, hi), Le(hi, ln))
@@ -1093,8 +1134,8 @@ func (ex *Exec) sliceOp(fr *Frame, st *State, i *ssa.Slice, fname string) {
 			ex.prove(fname, st, "slice", ex.srcLabel(i.Pos()), g, "string slice bounds in range", i.Pos())
 		}
 		ex.assume(st.pc, g)
-		r := UF("str.sub", StrSort, x.one(), lo, hi)
-		ex.assume(st.pc, Eq(UF("str.len", IntSort, r), Sub(hi, lo)))
+		r := UF("str_sub", StrSort, x.one(), lo, hi)
+		ex.assume(st.pc, Eq(UF("str_len", IntSort, r), Sub(hi, lo)))
 		fr.regs[i] = Value{T: i.Type(), C: []*Term{r}}
 	case *types.Pointer:
 		arr := xt.Elem().Underlying().(*types.Array)
@@ -1266,17 +1307,17 @@ func (ex *Exec) binop(fr *Frame, st *State, i *ssa.BinOp, fname string) {
 		a, b := x.one(), y.one()
 		switch i.Op {
 		case token.ADD:
-			r := UF("str.cat", StrSort, a, b)
-			ex.assume(st.pc, Eq(UF("str.len", IntSort, r), Add(UF("str.len", IntSort, a), UF("str.len", IntSort, b))))
+			r := UF("str_cat", StrSort, a, b)
+			ex.assume(st.pc, Eq(UF("str_len", IntSort, r), Add(UF("str_len", IntSort, a), UF("str_len", IntSort, b))))
 			set(r)
 		case token.LSS:
-			set(UF("str.lt", BoolSort, a, b))
+			set(UF("str_lt", BoolSort, a, b))
 		case token.GTR:
-			set(UF("str.lt", BoolSort, b, a))
+			set(UF("str_lt", BoolSort, b, a))
 		case token.LEQ:
-			set(Not(UF("str.lt", BoolSort, b, a)))
+			set(Not(UF("str_lt", BoolSort, b, a)))
 		case token.GEQ:
-			set(Not(UF("str.lt", BoolSort, a, b)))
+			set(Not(UF("str_lt", BoolSort, a, b)))
 		default:
 			fr.regs[i] = freshValue("binop", i.Type())
 		}
@@ -1324,7 +1365,7 @@ func (ex *Exec) convert(fr *Frame, st *State, i *ssa.Convert, fname string) {
 		r := Fresh("conv.tostr", StrSort)
 		if len(x.C) == 4 {
 			if sl, ok := from.Underlying().(*types.Slice); ok && typeStr(sl.Elem()) == "byte" || typeStr(from.Underlying().(*types.Slice).Elem()) == "uint8" {
-				ex.assume(st.pc, Eq(UF("str.len", IntSort, r), x.C[2]))
+				ex.assume(st.pc, Eq(UF("str_len", IntSort, r), x.C[2]))
 			}
 		}
 		set(r)
@@ -1334,9 +1375,9 @@ func (ex *Exec) convert(fr *Frame, st *State, i *ssa.Convert, fname string) {
 		base := ex.allocRef(st)
 		ln := Fresh("conv.len", IntSort)
 		if typeStr(et) == "byte" || typeStr(et) == "uint8" {
-			ex.assume(st.pc, Eq(ln, UF("str.len", IntSort, x.one())))
+			ex.assume(st.pc, Eq(ln, UF("str_len", IntSort, x.one())))
 		} else {
-			ex.assume(st.pc, And(Ge(ln, IntLit(0)), Le(ln, UF("str.len", IntSort, x.one()))))
+			ex.assume(st.pc, And(Ge(ln, IntLit(0)), Le(ln, UF("str_len", IntSort, x.one()))))
 		}
 		fr.regs[i] = Value{T: to, C: []*Term{base, IntLit(0), ln, ln}}
 		// element contents: arbitrary but typed (fresh array)
